@@ -17,8 +17,13 @@ REPO = os.environ.get("VERIF_REPO", "/repo")
 
 
 def main(argv):
+    out_json = None
+    if "--json" in argv:
+        out_json = argv[argv.index("--json") + 1]
+        argv = [a for a in argv if a not in ("--json", out_json)]
     sel = argv
     missed = []
+    results = []
     for name, pid, rel, old, new in MUTANTS:
         if sel and not any(name.startswith(s) or pid == s for s in sel):
             continue
@@ -40,11 +45,16 @@ def main(argv):
             print(f"{name}: {pid} exit={cp.returncode} {'DETECTED' if ok else 'MISSED'} {' '.join(rules)}")
             if cp.returncode == 2:
                 print("   ", cp.stderr.strip().splitlines()[-1:] )
+            results.append({"mutant": name, "property": pid, "file": rel, "detected": ok, "exit": cp.returncode, "rules": [r[5:] for r in rules]})
             if not ok:
                 missed.append(name)
         finally:
             shutil.rmtree(d, ignore_errors=True)
     print("missed:", missed)
+    if out_json:
+        import json
+
+        json.dump(results, open(out_json, "w"), indent=1)
     return 1 if missed else 0
 
 
